@@ -88,6 +88,9 @@ class Sink:
 
 # ------------------------------------------------------------------------------------------------ solving
 
+_canary_cache: dict = {}
+
+
 def _solver(timeout_ms):
     s = z3.Solver()
     s.set("timeout", timeout_ms)
@@ -124,7 +127,7 @@ def discharge(ob: Ob, timeout_s: int, use_cvc5=True):
     if r == z3.unknown:
         # refutation attempt in a small scope: bound every symbolic length by 2 (extra constraints can only
         # remove models, so a `sat` here is a genuine counter-model of the original VC)
-        s3 = _solver(min(timeout_s, 15) * 1000)
+        s3 = _solver(min(timeout_s, 10) * 1000)
         lens = set()
         for a in ob.assumptions + [to_z3(goal)]:
             _collect_lens(a, lens)
@@ -136,16 +139,6 @@ def discharge(ob: Ob, timeout_s: int, use_cvc5=True):
         r3 = s3.check()
         if r3 == z3.sat:
             r, s = r3, s3
-    if r == z3.unknown:
-        # second attempt: different seed / no MBQI, then cvc5
-        s2 = _solver(timeout_s * 1000)
-        s2.set("smt.random_seed", 7)
-        for a in ob.assumptions:
-            s2.add(a)
-        s2.add(z3.Not(to_z3(goal)))
-        r = s2.check()
-        if r != z3.unknown:
-            s = s2
     if r == z3.unknown and use_cvc5:
         try:
             res = cvc5_check(s.to_smt2().replace("(check-sat)", "") + "\n(check-sat)\n", timeout_s)
@@ -158,6 +151,17 @@ def discharge(ob: Ob, timeout_s: int, use_cvc5=True):
     ob.time = time.time() - t0
     if r == z3.unsat:
         ob.verdict = "proved"
+        # vacuity canary: the premises of a proved obligation must be satisfiable (else the path is dead)
+        from .calls import has_quantifier
+        ck = tuple(a.get_id() for a in ob.assumptions)
+        if ck not in _canary_cache:
+            cs = _solver(1000)
+            for a in ob.assumptions:
+                if not has_quantifier(a):
+                    cs.add(a)
+            _canary_cache[ck] = cs.check() == z3.unsat
+        if _canary_cache[ck]:
+            ob.verdict = "dead"
     elif r == z3.sat:
         ob.verdict = "refuted"
         ob.model = s.model()
@@ -241,7 +245,7 @@ def concretize(v, model, st, depth=0):
         dims = []
         for s in v.shape:
             d = s if isinstance(s, int) else ev(s).as_long()
-            dims.append(max(0, min(d, 12)))
+            dims.append(max(0, min(d, {1: 12, 2: 5}.get(len(v.shape), 2))))
 
         def build(prefix, k):
             if k == len(dims):
@@ -271,6 +275,99 @@ def concretize(v, model, st, depth=0):
                 out[s_] = concretize(d.get(sid), model, st, depth + 1)
         return {"$dict": out}
     return f"<{type(v).__name__}>"
+
+
+def _witness(ob, pre):
+    try:
+        w = {k: concretize(v, ob.model, pre) for k, v in pre.env.items() if not k.startswith("$")}
+        if pre.ghost:
+            w["$ghost"] = {k: concretize(v, ob.model, pre) for k, v in pre.ghost.items()}
+        return w
+    except Exception as e:  # noqa: BLE001
+        return {"$error": f"model extraction failed: {e}"}
+
+
+def parallel_discharge(obs, timeout_s, pre, jobs=None, chunk=8):
+    """Fork-parallel discharge.  Children inherit the symbolic structures (copy-on-write), solve a chunk of
+    obligations each and report verdict + witness through a JSON file."""
+    import json as _json
+    jobs = jobs or int(os.environ.get("PYVC_JOBS", "12"))
+    tmpdir = tempfile.mkdtemp(prefix="pyvc_ob_", dir=os.environ.get("PYVC_TMP"))
+    pending = []
+    for i, ob in enumerate(obs):
+        ob.witness = None
+        if isinstance(ob.goal, bool) and ob.goal:
+            ob.verdict, ob.backend = "proved", "eval"
+        else:
+            pending.append((i, ob))
+    running = {}
+    settled = {}  # group name -> 'refuted' | 'unknown'
+    use_cvc5 = os.environ.get("VERIF_TIER") == "thorough"
+
+    def reap():
+        try:
+            pid, _status = os.waitpid(-1, 0)
+        except ChildProcessError:
+            running.clear()
+            return
+        if pid not in running:
+            return
+        batch = running.pop(pid)
+        path = os.path.join(tmpdir, f"{pid}.json")
+        try:
+            res = _json.load(open(path))
+            os.unlink(path)
+        except Exception:  # noqa: BLE001
+            res = {}
+        for i, ob in batch:
+            d = res.get(str(i))
+            if d is None:
+                ob.verdict, ob.backend, ob.time, ob.detail, ob.witness = "unknown", None, 0.0, "solver process died", None
+            else:
+                ob.verdict, ob.backend, ob.time, ob.detail, ob.witness = (d["verdict"], d["backend"], d["time"],
+                                                                          d["detail"], d["witness"])
+            if ob.verdict == "refuted":
+                settled[ob.name] = "refuted"
+            elif ob.verdict == "unknown" and ob.name not in settled:
+                settled[ob.name] = "unknown"
+
+    while pending or running:
+        while pending and len(running) < jobs:
+            batch, pending = pending[:chunk], pending[chunk:]
+            snap = dict(settled)
+            pid = os.fork()
+            if pid == 0:
+                out = {}
+                try:
+                    for i, ob in batch:
+                        if snap.get(ob.name) == "refuted":
+                            out[str(i)] = {"verdict": "skipped", "backend": None, "time": 0.0,
+                                           "detail": "group already refuted", "witness": None}
+                            continue
+                        # budget: once something is refuted (the function is violated anyway) or this group already
+                        # timed out once, the remaining instances get a short budget - keeps violating runs fast
+                        t_ob = 3 if ("refuted" in snap.values() or snap.get(ob.name) == "unknown") else timeout_s
+                        discharge(ob, t_ob, use_cvc5=use_cvc5)
+                        w = None
+                        if ob.verdict == "refuted":
+                            w = _witness(ob, pre)
+                            z3.set_option(max_depth=6, max_args=8, max_lines=12, max_width=100)
+                            ob.detail = "goal: " + str(ob.goal)[:400]
+                            snap[ob.name] = "refuted"
+                        elif ob.verdict == "unknown":
+                            snap.setdefault(ob.name, "unknown")
+                        out[str(i)] = {"verdict": ob.verdict, "backend": ob.backend, "time": ob.time,
+                                       "detail": ob.detail, "witness": w}
+                    _json.dump(out, open(os.path.join(tmpdir, f"{os.getpid()}.json"), "w"), default=str)
+                finally:
+                    os._exit(0)
+            running[pid] = batch
+        if running:
+            reap()
+    try:
+        os.rmdir(tmpdir)
+    except OSError:
+        pass
 
 
 # ------------------------------------------------------------------------------------------------ function verification
@@ -389,9 +486,9 @@ def verify_function(key: str, repo: Repo, reg, timeout_s=20) -> FunctionResult:
     res.lib_used = sorted(lib.USED)
     if res.feasible_outcomes == 0:
         res.status, res.reason = "vacuous", "no feasible execution path reaches an exit"
-    # discharge
+    # discharge (fork-parallel: children inherit the symbolic structures, so they can also build the witness)
+    parallel_discharge(sink.obs, timeout_s, pre)
     for ob in sink.obs:
-        discharge(ob, timeout_s)
         g = res.groups.setdefault(ob.name, {"verdict": "proved", "backend": set(), "time": 0.0, "kind": ob.kind,
                                             "lines": [], "instances": 0, "witness": None, "detail": ""})
         g["instances"] += 1
@@ -399,22 +496,24 @@ def verify_function(key: str, repo: Repo, reg, timeout_s=20) -> FunctionResult:
             g["lines"].append(ob.line)
         g["time"] += ob.time
         g["backend"].add(ob.backend)
+        if ob.verdict == "dead":
+            g["dead"] = g.get("dead", 0) + 1
+            continue
+        if ob.verdict == "skipped":
+            continue
         if ob.verdict == "refuted":
             if g["verdict"] != "refuted":
                 g["verdict"] = "refuted"
-                try:
-                    g["witness"] = {k: concretize(v, ob.model, pre) for k, v in pre.env.items()
-                                    if not k.startswith("$")}
-                    if pre.ghost:
-                        g["witness"]["$ghost"] = {k: concretize(v, ob.model, pre) for k, v in pre.ghost.items()}
-                except Exception as e:  # noqa: BLE001
-                    g["witness"] = {"$error": f"model extraction failed: {e}"}
-                g["detail"] = f"goal: {str(ob.goal)[:400]}"
+                g["witness"] = ob.witness
+                g["detail"] = ob.detail
         elif ob.verdict == "unknown" and g["verdict"] == "proved":
             g["verdict"] = "unknown"
             g["detail"] = ob.detail
     for g in res.groups.values():
         g["backend"] = sorted(b for b in g["backend"] if b)
+        if g.get("dead", 0) == g["instances"]:
+            g["verdict"] = "vacuous"
+            g["detail"] = "every instance of this obligation sits on a path whose premises are unsatisfiable"
     res.time = time.time() - t0
     return res
 
@@ -464,6 +563,11 @@ def check_outcome(I: Interp, o: Outcome, c, pre: State, invs, fn, selfcls):
             if c.is_cm:
                 for i, e in enumerate(c.exit_ensures):
                     I.oblige(st, I.contract_truth(e, st), "X", f"exit-post-on-exception#{i}", node)
+            for i, e in enumerate(c.exc_ensures):
+                I.oblige(st, I.contract_truth(e, st), "X", f"exception-safety#{i}", node)
+            if selfcls is not None and c.exc_ensures:
+                for i, src in enumerate(invs):
+                    I.oblige(st, I.contract_truth(src, st), "X", f"class-inv-on-exception#{i}", node)
             return
         I.oblige(st, False, "X", f"no-unexpected-exception[{exc.cls}]", node)
 
